@@ -328,7 +328,10 @@ def check_and_load_args(args, parser):
     elif args.genedb.lower().endswith("db"):
         args.genedb_filename = args.genedb
     else:
-        args.genedb_filename = os.path.join(args.output, os.path.splitext(os.path.basename(args.genedb))[0] + ".db")
+        # a conversion that infers genes and transcripts is another database than one that does not: a re-run with the other setting
+        # must not rebuild the file an earlier conversion is known by (other runs may be using it)
+        args.genedb_filename = os.path.join(args.output, os.path.splitext(os.path.basename(args.genedb))[0] +
+                                            (".db" if args.complete_genedb else ".inferred.db"))
 
     if not check_input_params(args):
         parser.print_usage()
